@@ -28,8 +28,8 @@ import (
 )
 
 const (
-	user = "user"
-	pass = "p4ss:w0rd"
+	user0 = "user"
+	pass0 = "p4ss:w0rd"
 )
 
 func b64(s string) string { return base64.StdEncoding.EncodeToString([]byte(s)) }
@@ -40,9 +40,13 @@ type credVariant struct {
 	ok     bool
 }
 
-func credVariants() []credVariant {
+// credVariants: what a client may present, relative to the configured user and password.
+func credVariants(user, pass string) []credVariant {
 	pa := func(v string) []httpwire.Field { return []httpwire.Field{{Name: "Proxy-Authorization", Value: v}} }
+	trimmed := strings.TrimSpace(user) + ":" + strings.TrimSpace(pass)
 	return []credVariant{
+		// (round 9) the configured text with the blanks at its ends removed: equal to the configuration only if there were none
+		{"blanks-trimmed", pa("Basic " + b64(trimmed)), trimmed == user+":"+pass},
 		{"right", pa("Basic " + b64(user+":"+pass)), true},
 		{"absent", nil, false},
 		{"wrong-user", pa("Basic " + b64("user2:"+pass)), false},
@@ -289,7 +293,13 @@ func scenario(x *explore.X, product int) {
 		c.outside = tf == 2
 	}
 	kind := free("kind", 6)
-	creds := credVariants()
+	// (round 9) the configured credentials are configuration text (they go through the option's parser, ParseUserinfo):
+	// a user that begins and a password that ends with a blank are part of what must be presented
+	user, pass := user0, pass0
+	if product == 0 && c.auth && x.Choose("configured-credentials-have-blanks-at-the-ends", 2) == 1 {
+		user, pass = " "+user0, pass0+" "
+	}
+	creds := credVariants(user, pass)
 	hosts := hostVariants()
 	var cred credVariant
 	var host hostVariant
